@@ -402,7 +402,9 @@ class LineFileBase(SeqProp):
         return hash((case.meta["variant"], case.meta["content"], tuple(case.ops))) if len(case.ops) >= 5 else None
 
 
-PIECES = ["a", "bc", "", "é", "漢字", "x y\tz", "q\rw", "end\r", "1,2,3", " lead", "trail ", "𝄞"]
+PIECES = ["a", "bc", "", "é", "漢字", "x y\tz", "q\rw", "end\r", "1,2,3", " lead", "trail ", "𝄞",
+          # a byte order mark is a character like any other, wherever it stands (concatenated "with BOM" files)
+          "\ufeffbom first", "\ufeff", "mid\ufeffdle"]
 
 
 def sized_content(rng, total, final_nl, n_lines=None):
